@@ -98,9 +98,10 @@ V2_LIT_U8 = {'class': 'int', 'size': 8}
 # ------------------------------------------------------------------ operators
 
 class Op:
-    __slots__ = ('constraint', 'variant', 'fn', 'certain', 'pos', 'repl')
+    __slots__ = ('constraint', 'variant', 'fn', 'certain', 'pos', 'repl', 'cell')
 
-    def __init__(self, constraint, variant, fn, pos, certain=False, repl=None):
+    def __init__(self, constraint, variant, fn, pos, certain=False, repl=None, cell=None):
+        self.cell = cell
         self.constraint, self.variant, self.fn, self.pos, self.certain, self.repl = \
             constraint, variant, fn, pos, certain, repl
 
@@ -142,6 +143,127 @@ def _short(v):
     return s if len(s) < 40 else s[:37] + '...'
 
 
+
+# ------------------------------------------------------------------ every class a location accepts
+# A constraint on a field type is tried with EVERY class (and every spelling of it) that the
+# location accepts, not only with the class the base document happens to use there: violating
+# literal field types (written directly, through an alias, and through `$inherit` of a valid alias
+# plus the violating property) are put at every feature position, as array elements and as
+# structure members.
+
+V3_SPELL = {'uint': ['uint', 'unsigned-int', 'unsigned-integer'], 'sint': ['sint', 'signed-int', 'signed-integer'],
+            'uenum': ['uenum', 'unsigned-enum', 'unsigned-enumeration'],
+            'senum': ['senum', 'signed-enum', 'signed-enumeration'], 'real': ['real'], 'string': ['str', 'string']}
+V2_SPELL = {'int': ['int', 'integer'], 'enum': ['enum', 'enumeration'], 'real': ['flt', 'float', 'floating-point'],
+            'string': ['str', 'string']}
+DEL = object()
+
+
+def _align_viol(key):
+    out = [('alignment', '%s=%d' % (key, v), key, v) for v in (3, 0, -1, 6)]
+    out += [('wrong-type', '%s=%s' % (key, _short(w)), key, w) for w in ('8', [8])]
+    out += [('integral-float', '%s=8.0' % key, key, 8.0)]
+    return out
+
+
+def v3_ft_base(spelling, family, size=16):
+    n = {'class': spelling}
+    if family in ('uint', 'sint', 'uenum', 'senum'):
+        n['size'] = size
+    if family in ('uenum', 'senum'):
+        n['mappings'] = {'A': [0, [2, 5]]}
+    if family == 'real':
+        n['size'] = 32
+    return n
+
+
+def v3_ft_violations(family):
+    """[(constraint, variant, property, value | DEL)] for a barectf 3 field type of this class family"""
+    V = []
+    if family in ('uint', 'sint', 'uenum', 'senum'):
+        V += [('int-size', 'size=%d' % v, 'size', v) for v in (0, 65, -1, 128)]
+        V += [('wrong-type', 'size=' + _short(w), 'size', w) for w in ('8', [8], 8.5, None, True)]
+        V += [('integral-float', 'size=16.0', 'size', 16.0)]
+        V += _align_viol('alignment')
+        V += [('bad-enum-value', 'preferred-display-base=base7', 'preferred-display-base', 'base7'),
+              ('wrong-type', 'preferred-display-base=16', 'preferred-display-base', 16),
+              ('missing-required', 'size', 'size', DEL),
+              ('unknown-property', 'zz-unknown', 'zz-unknown', 1)]
+        if family in ('uenum', 'senum'):
+            V += [('missing-required', 'mappings', 'mappings', DEL),
+                  ('empty-mappings', 'mappings={}', 'mappings', {}),
+                  ('empty-mappings', 'label=[]', 'mappings', {'A': []}),
+                  ('wrong-type', 'mappings=5', 'mappings', 5),
+                  ('wrong-type', 'label=5', 'mappings', {'A': 5}),
+                  ('wrong-type', 'range=x', 'mappings', {'A': ['x']}),
+                  ('wrong-type', 'range=[1]', 'mappings', {'A': [[1]]}),
+                  ('wrong-type', 'range=[1,2,3]', 'mappings', {'A': [[1, 2, 3]]}),
+                  ('integral-float', 'mapping value 1.0', 'mappings', {'A': [1.0]})]
+        else:
+            V += [('unknown-property', 'mappings-on-int', 'mappings', {'A': [1]})]
+    elif family == 'real':
+        V += [('real-size', 'size=%d' % v, 'size', v) for v in (16, 128, 0, 24)]
+        V += [('wrong-type', 'size=str', 'size', '32'), ('integral-float', 'real size=32.0', 'size', 32.0)]
+        V += _align_viol('alignment')
+        V += [('missing-required', 'size', 'size', DEL),
+              ('unknown-property', 'preferred-display-base-on-real', 'preferred-display-base', 'hex'),
+              ('unknown-property', 'zz-unknown', 'zz-unknown', 1)]
+    elif family == 'string':
+        V += [('unknown-property', 'size-on-string', 'size', 8), ('unknown-property', 'alignment-on-string', 'alignment', 8),
+              ('unknown-property', 'zz-unknown', 'zz-unknown', 1)]
+    return V
+
+
+def v2_ft_base(spelling, family):
+    if family == 'int':
+        return {'class': spelling, 'size': 16}
+    if family == 'enum':
+        return {'class': spelling, 'value-type': {'class': 'int', 'size': 8}, 'members': ['A', {'label': 'B', 'value': 5}]}
+    if family == 'real':
+        return {'class': spelling, 'size': {'exp': 8, 'mant': 24}}
+    return {'class': spelling}
+
+
+def v2_ft_violations(family):
+    V = []
+    if family == 'int':
+        V += [('int-size', 'size=%d' % v, 'size', v) for v in (0, 65, -1)]
+        V += [('wrong-type', 'size=' + _short(w), 'size', w) for w in ('8', [8], 8.5)]
+        V += [('integral-float', 'size=16.0', 'size', 16.0)] + _align_viol('align')
+        V += [('bad-enum-value', 'base=base7', 'base', 'base7'), ('wrong-type', 'signed=5', 'signed', 5),
+              ('bad-enum-value', 'byte-order=middle', 'byte-order', 'middle'),
+              ('missing-required', 'size', 'size', DEL), ('unknown-property', 'zz-unknown', 'zz-unknown', 1)]
+    elif family == 'enum':
+        V += [('missing-required', 'value-type', 'value-type', DEL),
+              ('int-size', 'value-type.size=65', 'value-type', {'class': 'int', 'size': 65}),
+              ('wrong-class', 'value-type=string', 'value-type', {'class': 'string'}),
+              ('empty-mappings', 'members=[]', 'members', []), ('wrong-type', 'member=5', 'members', [5]),
+              ('missing-required', 'member.value', 'members', [{'label': 'A'}]),
+              ('unknown-property', 'zz-unknown', 'zz-unknown', 1)]
+    elif family == 'real':
+        V += [('real-size', 'size=5+11', 'size', {'exp': 5, 'mant': 11}), ('wrong-type', 'size=32', 'size', 32),
+              ('missing-required', 'size', 'size', DEL)] + _align_viol('align')
+        V += [('unknown-property', 'zz-unknown', 'zz-unknown', 1)]
+    else:
+        V += [('unknown-property', 'size-on-string', 'size', 8), ('bad-enum-value', 'encoding=latin1', 'encoding', 'latin1'),
+              ('unknown-property', 'zz-unknown', 'zz-unknown', 1)]
+    return V
+
+
+def apply_violation(base, prop, val):
+    n = copy.deepcopy(base)
+    if val is DEL:
+        n.pop(prop, None)
+    else:
+        n[prop] = copy.deepcopy(val)
+    return n
+
+
+def _flow(n):
+    """one-line YAML text of a small tree (for messages)"""
+    return D.yaml.safe_dump(n, default_flow_style=True, width=10000, sort_keys=False).strip()
+
+
 class Gen:
     """Generates the operators of one base document."""
 
@@ -176,12 +298,12 @@ class Gen:
                     res |= set(n[self.aliases_key])
         return res
 
-    def add(self, constraint, variant, fn, pos, certain=False, repl=None):
+    def add(self, constraint, variant, fn, pos, certain=False, repl=None, cell=None):
         touch = getattr(fn, 'touch', None)
         if pos.file != MAIN and touch is not None and self.overridden(pos.file, touch):
             self.masked += 1      # an overlay sets the same property: not an unambiguous violation
             return
-        self.ops.append(Op(constraint, variant, fn, pos, certain, repl))
+        self.ops.append(Op(constraint, variant, fn, pos, certain, repl, cell))
 
     def _key_elsewhere(self, key):
         """True when an inclusion file of this document has a property named `key`."""
@@ -377,6 +499,13 @@ class Gen:
                 add('nested-dynamic-array', 'element=alias-of-dynamic-array', dyn_alias, p)
             for w in WRONG['ft']:
                 add('wrong-type', ek + '=' + _short(w), _setter(p, ek, w), p)
+            if not inh:
+                def put_elem(doc, val, ek=ek):
+                    tget(doc, p.file, p.path)[ek] = val
+                fams = ('uint', 'sint', 'uenum', 'senum', 'real', 'string') if self.v3 else ('int', 'enum', 'real', 'string')
+                epos = D.Pos(p.file, p.path, p.kind, p.loc + ('>dyn-elem' if c == 'darray' else '>elem'), cls=None)
+                self.class_variant_ops(epos, put_elem, fams, ek, forms=('literal', 'alias'), control=False,
+                                       touch=tuple(p.path) + (ek,), coarse=True)
         if c == 'struct':
             self.align_ops(p, self.minalign_key)
             mk = self.members_key
@@ -469,6 +598,17 @@ class Gen:
                     m[new] = copy.deepcopy(V2_LIT_U8)
             fn.touch = tuple(p.path) + ((len(n),) if self.v3 else (new,))
             return fn
+        def put_member(doc, val):
+            m = tget(doc, p.file, p.path)
+            if self.v3:
+                m.append({'zz_member': {'field-type': val}})
+            else:
+                m['zz_member'] = val
+        put_member.touch = tuple(p.path) + ((len(n),) if self.v3 else ('zz_member',))
+        fams = ('uint', 'sint', 'uenum', 'senum', 'real', 'string') if self.v3 else ('int', 'enum', 'real', 'string')
+        mpos = D.Pos(p.file, p.path, p.kind, p.loc + '>member', cls=None)
+        self.class_variant_ops(mpos, put_member, fams, 'member zz_member', forms=('literal', 'inherit'), control=False,
+                               touch=put_member.touch, coarse=True)
         for kw in CODE_KEYWORDS + BAD_IDENTS:
             add('invalid-identifier', 'member=%r' % kw, rename(kw), p)
         for kw in DOC_ONLY_KEYWORDS:
@@ -684,12 +824,73 @@ class Gen:
             add('uuid-ft-shape', 'not-array', _setter(p, 'uuid-field-type', V3_LIT_U8), p)
             for fk in ('magic-field-type', 'data-stream-type-id-field-type'):
                 self.feature_class_ops(p, fk)
+                self.feature_variant_ops(p, fk)
         if k in ('pkt-features', 'er-features') and v3:
             for fk in sorted(V3_SPEC[k][0]):
                 self.feature_class_ops(p, fk)
+                self.feature_variant_ops(p, fk)
         if k == 'pkt-features' and v3:
             add('cannot-disable-feature', 'total-size=false', _setter(p, 'total-size-field-type', False), p)
             add('cannot-disable-feature', 'content-size=false', _setter(p, 'content-size-field-type', False), p)
+
+
+    # -- every class / spelling / form at one field type position
+    def class_variant_ops(self, p, put, families, where, forms=('literal', 'alias', 'inherit'), base_size=16,
+                          control=True, touch=None, coarse=False):
+        """`put(doc, value)` writes a field type (node or alias name) at the position; every
+        violation of every class family in `families` is written there, in every form."""
+        v3 = self.v3
+        spell = V3_SPELL if v3 else V2_SPELL
+        inh_key = '$inherit'
+        for fam in families:
+            viols = v3_ft_violations(fam) if v3 else v2_ft_violations(fam)
+            for sp in spell[fam]:
+                base = v3_ft_base(sp, fam, base_size) if v3 else v2_ft_base(sp, fam)
+                pos = D.Pos(p.file, p.path, p.kind, p.loc, cls=fam, name=p.name, inh=False)
+                if control:
+                    def ctl(doc, base=base):
+                        put(doc, copy.deepcopy(base))
+                    ctl.touch = touch
+                    self.add('control-valid-variant', '%s=%s' % (where, _flow(base)), ctl, pos,
+                             cell=('variant', fam) if coarse else (fam, sp))
+                for (constraint, variant, prop, val) in viols:
+                    bad = apply_violation(base, prop, val)
+                    for form in forms:
+                        if form == 'literal':
+                            def fn(doc, bad=bad):
+                                put(doc, copy.deepcopy(bad))
+                            text = _flow(bad)
+                        elif form == 'alias':
+                            def fn(doc, bad=bad):
+                                self._add_aliases(doc, {'zz_variant': bad})
+                                put(doc, 'zz_variant')
+                            text = 'zz_variant (alias of %s)' % _flow(bad)
+                        else:
+                            # an overlay mapping / sequence is MERGED with the inherited one: only a
+                            # value that replaces the inherited one is a violation for sure
+                            if val is not DEL and isinstance(val, (dict, list)) and type(base.get(prop)) is type(val):
+                                continue
+                            al = apply_violation(base, prop, DEL) if val is DEL else base
+                            over = {inh_key: 'zz_variant'}
+                            if val is not DEL:
+                                over[prop] = val
+
+                            def fn(doc, al=al, over=over):
+                                self._add_aliases(doc, {'zz_variant': al})
+                                put(doc, copy.deepcopy(over))
+                            text = '%s (zz_variant = %s)' % (_flow(over), _flow(al))
+                        fn.touch = touch
+                        self.add(constraint, '%s: %s = %s' % (variant, where, text), fn, pos,
+                                 certain=(constraint == 'unknown-property' and form == 'literal'),
+                                 cell=('variant', fam) if coarse else (fam,))
+
+    def feature_variant_ops(self, p, fk):
+        """feature field types accept unsigned integers and unsigned enumerations"""
+        def put(doc, val, fk=fk):
+            tget(doc, p.file, p.path)[fk] = val
+        size = 32 if fk == 'magic-field-type' else 16
+        pos = D.Pos(p.file, p.path, p.kind, (p.loc or '') + 'feature:' + fk, cls=None, name=fk)
+        self.class_variant_ops(pos, put, ('uint', 'uenum'), fk, base_size=size, touch=tuple(p.path) + (fk,))
 
     def feature_class_ops(self, p, fk):
         self.add('feature-ft-not-unsigned-int', fk + '=sint', _setter(p, fk, {'class': 'sint', 'size': 32}), p)
@@ -1148,9 +1349,11 @@ def select(tasks, ctx, budget_cpu_s):
         return tasks
     cells = {}
     for t in tasks:
-        cells.setdefault((t['base'], t['constraint'], t['loc']), []).append(t)
+        cell = t.get('cell')
+        loc = t['loc'].rsplit('>', 1)[-1] if cell and cell[0] == 'variant' else t['loc']
+        cells.setdefault((t['base'], t['constraint'], loc, cell), []).append(t)
     keep, rest = [], []
-    for k in sorted(cells):
+    for k in sorted(cells, key=repr):
         lst = cells[k]
         j = ctx.rng.randrange(len(lst))
         keep.append(lst[j])
@@ -1205,10 +1408,14 @@ def run(ctx):
         for i, op in enumerate(ops):
             tasks.append({'base': b.name, 'dialect': b.dialect, 'op': i, 'constraint': op.constraint,
                           'variant': op.variant, 'loc': loc_kind(op.pos), 'file': op.pos.file, 'kind': op.pos.kind,
-                          'path': '/'.join(map(str, op.pos.path)), 'cls': op.pos.cls, 'certain': op.certain})
+                          'path': '/'.join(map(str, op.pos.path)), 'cls': op.pos.cls, 'certain': op.certain,
+                          'cell': op.cell})
     generated = len(tasks)
     all_single = list(tasks)
-    budget = ctx.pick(44.0, 540.0) * WORKERS
+    # a broken proof or correspondence must be pinned to a concrete input: search with a larger budget
+    boost = 5.0 if (ctx.quick and (ctx.proof_broken or ctx.corr_broken)) else 1.0
+    cov['budget_boost_because_proof_or_correspondence_broken'] = boost
+    budget = ctx.pick(44.0, 540.0) * WORKERS * boost
     tasks = select(tasks, ctx, budget)
     if not ctx.quick:
         for b in good:
@@ -1243,6 +1450,17 @@ def run(ctx):
             t['loc'], {'tried': 0, 'rejected': 0, 'rejected_other': 0, 'accepted': 0})
         dd = per_dialect.setdefault('v%d' % t['dialect'], {'tried': 0, 'rejected': 0, 'rejected_other': 0,
                                                            'accepted_violating': 0, 'accepted_not_reaching_effective': 0})
+        if t['constraint'] == 'control-valid-variant':
+            # a VALID field type of this class/spelling at this position: must load (otherwise the
+            # violating variants at this position prove nothing)
+            cc = cov.setdefault('control_valid_variants', {'tried': 0, 'accepted': 0, 'rejected': []})
+            cc['tried'] += 1
+            if oc == 'ok':
+                cc['accepted'] += 1
+            elif len(cc['rejected']) < 30:
+                cc['rejected'].append('%s %s %s:%s -> %s %s' % (t['base'], t['variant'], t['file'], t['path'], oc,
+                                                               (r.get('msg') or r.get('exc') or '')[-120:] if r else ''))
+            continue
         cell['tried'] += 1
         dd['tried'] += 1
         if oc == 'cpe':
